@@ -417,6 +417,48 @@ def terminate_case(seed):
     return desc, fails
 
 
+def dead_connection_case(seed):
+    """Connections that are over are released: the connection handler finishes (findings F57, F58).
+    connect-200: CONNECT answered 2xx, h11 switches protocol for good;  terminate-pipelined: shutdown begins while a
+    request with a pipelined successor is being answered;  h2c-404 / h2c-connect: an h2c upgrade whose request is answered
+    by the stream itself (unknown host, CONNECT without :protocol)."""
+    from . import c16
+
+    rng = random.Random(seed)
+    kind = rng.choice(["connect-200", "terminate-pipelined", "h2c-404", "h2c-connect"])
+    d = rng.choice([0.0, 2.0])
+    answer = [("recv",), ("sleep", d), ("send", {"type": "http.response.start", "status": 200, "headers": []}),
+              ("send", {"type": "http.response.body", "body": b"hello", "more_body": False})]
+    names = ()
+    if kind == "connect-200":
+        script = [("send", b"CONNECT example.com:443 HTTP/1.1\r\nHost: example.com:443\r\n\r\n"), ("sleep", d + 1.0),
+                  ("send", b"\x16\x03\x01tunnelled"), ("sleep", 1.0), ("eof",)]
+    elif kind == "terminate-pipelined":
+        script = [("send", b"GET /a HTTP/1.1\r\nHost: x\r\n\r\nGET /b HTTP/1.1\r\nHost: x\r\n\r\n"), ("sleep", d / 2), ("terminate",),
+                  ("sleep", d + 1.0), ("eof",)]
+    else:
+        names = ("good.example",) if kind == "h2c-404" else ()
+        method = b"GET /" if kind == "h2c-404" else b"CONNECT example.com:443"
+        script = [("send", method + b" HTTP/1.1\r\nHost: other.example\r\nConnection: Upgrade, HTTP2-Settings\r\nUpgrade: h2c\r\n"
+                   b"HTTP2-Settings: AAMAAABkAAQAAP__\r\n\r\n"), ("sleep", 1.0), ("eof",)]
+    fails = []
+    desc = {"seed": seed, "carrier": "h1", "note": "dead:" + kind, "delay": d}
+    for backend, run in (("asyncio", W.run_asyncio), ("trio", W.run_trio)):
+        cfg = R.make_config(names)
+        cfg._log = R.RecLog([])
+        cfg.keep_alive_timeout = 30.0
+        res = run(c16.scripted([answer, answer]), cfg, script, tail=20.0)
+        if res["handler_done"] is None or res["leftovers"]:
+            fails.append({"signature": "handler-not-finished:" + kind, "backend": backend, "leftovers": res["leftovers"], "desc": desc,
+                          "error": res["handler_error"]})
+        elif res["handler_error"]:
+            fails.append({"signature": "handler-error:" + kind, "backend": backend, "error": res["handler_error"], "desc": desc})
+        elif kind.startswith("h2c") and not any(k == "data" and d2 and b"\x00\x00\x00\x00\x01\x00\x00\x00\x01" in d2 for _, k, d2 in res["events"]):
+            # the stream's own answer ends with an empty DATA frame carrying END_STREAM on stream 1
+            fails.append({"signature": "h2c-upgrade-request-not-answered:" + kind, "backend": backend, "desc": desc})
+    return desc, fails
+
+
 # ------------------------------------------------------------------ known findings: error responses / prior knowledge
 def error_response_case(kind):
     """F10 / F11: after a server-generated error response inside a stream, and on a cleartext prior-knowledge
@@ -469,7 +511,8 @@ def timer_case(res, T):
 
 def run(ctx):
     fns = [(h1_case, ctx.scale(360, 2000, 600)), (loss_case, ctx.scale(240, 1200, 400)), (ws_case, ctx.scale(48, 300, 100)),
-           (h2_case, ctx.scale(48, 300, 100)), (h2_blocked_eof_case, ctx.scale(16, 100, 30)), (h2_slow_client_case, ctx.scale(8, 60, 20)), (stalled_client_error_case, ctx.scale(6, 40, 12)), (h1_close_pipelined_case, ctx.scale(16, 100, 30)), (terminate_case, ctx.scale(12, 100, 40))]
+           (h2_case, ctx.scale(48, 300, 100)), (h2_blocked_eof_case, ctx.scale(16, 100, 30)), (h2_slow_client_case, ctx.scale(8, 60, 20)), (stalled_client_error_case, ctx.scale(6, 40, 12)), (h1_close_pipelined_case, ctx.scale(16, 100, 30)), (terminate_case, ctx.scale(12, 100, 40)),
+           (dead_connection_case, ctx.scale(16, 100, 30))]
     oracle_failures, descs = [], []
     for fn, n in fns:
         for i in range(n):
